@@ -706,6 +706,26 @@ pub fn program_set(set: &str) -> Vec<Program<SemFam>> {
                     out.push(Program::fork_join(cfg.clone(), ms, ch));
                 }
             }
+            // a queued request cancelled while others are queued behind it: the canceller needs a
+            // scheduling point between joining the queue and leaving it (dropping an `Acquire` has
+            // none of its own, so `Start; Cancel` is one indivisible step) — another operation of the canceller in between provides it
+            // (seed C18-cancel-swap-removes-fair-waiter was unreachable in every program without it)
+            if permits <= 1 {
+                let others: Vec<Vec<SemOp>> = vec![vec![SemOp::Acquire(1)], vec![SemOp::Acquire(2)], vec![SemOp::Start(1), SemOp::Await], vec![SemOp::Acquire(1), SemOp::Release(1)]];
+                // (re-polling a queued request has no scheduling point either; `try_acquire` has one)
+                for canc in [vec![SemOp::Start(2), SemOp::TryAcquire(1), SemOp::Cancel], vec![SemOp::Start(1), SemOp::TryAcquire(1), SemOp::Cancel]] {
+                    for idx in nondecreasing_tuples(others.len(), 2) {
+                        let mains: Vec<Vec<SemOp>> = if thorough {
+                            vec![vec![SemOp::Release(1)], vec![SemOp::Release(2)], vec![SemOp::Release(1), SemOp::Release(1)], vec![]]
+                        } else {
+                            vec![vec![SemOp::Release(1)]]
+                        };
+                        for ms in mains {
+                            out.push(Program::fork_join(cfg.clone(), ms, vec![canc.clone(), others[idx[0]].clone(), others[idx[1]].clone()]));
+                        }
+                    }
+                }
+            }
         }
     }
     out.sort_by_key(|p| p.size());
